@@ -22,6 +22,11 @@ noncomputable def gaussianDenominator (loc scale : ℝ) : ℝ :=
 def gaussianInputsAccepted (loc scale : ℝ) : Prop :=
   (if loc < ((1 : ℝ) / 2) then ((normSf (0 : ℝ) loc scale) - (normSf (1 : ℝ) loc scale)) else ((normCdf (1 : ℝ) loc scale) - (normCdf (0 : ℝ) loc scale))) ≠ (0 : ℝ)
 
+/-- the domain guard `_validate_inputs` asserts before computing the denominator: `np.isfinite` of ['loc', 'scale'] (true of every real
+number) and positivity of ['scale']; `True` when the source has no such assertion -/
+def gaussianDomainOk (loc scale : ℝ) : Prop :=
+  0 < scale
+
 /-- `Pulse.epsilon = 1/1000000` and `Pulse.check_n_points` -/
 def pulseEpsilonNum : ℕ := 1
 def pulseEpsilonDen : ℕ := 1000000
